@@ -14,7 +14,7 @@
 //!   perturbation       RSS(c+δ) ≥ RSS(c)(1 − 1e-9) − B²/λmin for 32 random δ of scales 1e-8..1 ‖c‖ and the
 //!                      exact line minimum along the gradient Vᵀr (B²/λmin bounds RSS(c) − min RSS when the
 //!                      first clause holds)
-//!   reproduce          noiseless degree-d data: ‖c − c_gen‖₂ ≤ B_gen/λmin + ε√κ‖c_gen‖ (exact consequence of
+//!   reproduce          noiseless degree-d data: ‖c − c_gen‖₂ ≤ min(B_gen/λmin, 2000·m²·κ·ε‖c_gen‖) + ε√κ‖c_gen‖ (first term: exact consequence of
 //!                      the first clause plus the rounding of the data), predict(x_i) = y_i within that
 //!                      times ‖(1,|x|,..,|x|^d)‖₂ plus evaluation rounding
 //!   predict/order      predict(x) = Σ c_j x^j (dd) within 8(2d+2)ε Σ|c_j||x|^j, coefficients set through the
@@ -482,13 +482,21 @@ pub fn check_reproduce(ctx: &mut Ctx, c: &FitCase) -> R {
     // exact LS solution of the (rounded) data differs from c_gen by ≤ ‖δy‖/σmin ≤ ε‖y‖/√λmin ≤ ε√κ‖c_gen‖;
     // the returned coefficients differ from it by ≤ B/λmin
     let b = first_order_bound(&ft, gn);
-    let tol_c = b / ft.sp.lmin + EPS * ft.sp.kappa.sqrt() * gn;
+    let tol_res = b / ft.sp.lmin + EPS * ft.sp.kappa.sqrt() * gn;
+    // Forward error of solving the normal equations G c = g with G formed in working precision, by a backward-stable
+    // factorisation or through a computed inverse: proportional to κ(G)·ε (not κ², which is what the residual clause
+    // turned into a coefficient bound gives). Constant 2000·m² — the largest ratio observed on the unchanged tree over
+    // all runs is about 220. This is what separates rounding from a regularised ("jittered") factorisation, whose
+    // effect on the residual is below rounding but whose effect on the coefficients is of order one.
+    let m1 = (ft.sp.d + 1) as f64;
+    let tol_fwd = 2000.0 * m1 * m1 * ft.sp.kappa * EPS * gn + EPS * ft.sp.kappa.sqrt() * gn;
+    let tol_c = tol_res.min(tol_fwd);
     let diff: Vec<f64> = ft.coef.iter().zip(&ft.gen).map(|(a, b)| a - b).collect();
     let dn = norm2(&diff);
     if gn > 0.0 && tol_c >= 0.5 * gn {
         ctx.label("reproduce", "vacuous: tolerance >= 50% of |c_gen| (ill-conditioned)");
     }
-    ctx.worst("reproduce |c - c_gen| / (B/lmin + eps sqrt(kappa)|c_gen|)", if tol_c > 0.0 { dn / tol_c } else if dn == 0.0 { 0.0 } else { f64::INFINITY });
+    ctx.worst("reproduce |c - c_gen| / min(B/lmin, 2000 m^2 kappa eps |c_gen|) + eps sqrt(kappa)|c_gen|", if tol_c > 0.0 { dn / tol_c } else if dn == 0.0 { 0.0 } else { f64::INFINITY });
     if gn > 0.0 {
         ctx.worst("reproduce |c - c_gen| / (kappa eps |c_gen|)  [informative]", dn / (ft.sp.kappa * EPS * gn));
     }
